@@ -5,6 +5,8 @@ import DimodProofs.C01Dqm
 import DimodProofs.C01Witness
 import DimodProofs.C01Py
 import DimodProofs.C01Vars
+import DimodProofs.C01Forms
+import DimodModel.EnergyGen
 
 /-! # C01 — energy/energies is the value of the model's own polynomial at the sample
 
@@ -283,5 +285,125 @@ example : (asSamples C01Witness.twoDicts).toOption = some ([[3, 1, 2], [3, 1, 2]
 /-- a constant-only constraint left-hand side -/
 example : (exprEnergies C01Witness.constExpr [C01Witness.a] [[1]] [C01Witness.a]).toOption = some [3] :=
   C01Witness.d2_new_value
+
+
+/-! ## round 7: loops over the guards regenerated from the source; the remaining `as_samples` forms; the dtype choice -/
+
+section Round7
+variable {R : Type} [CommRing R]
+
+open Generated.EnergyLoops
+
+/-- The loops of `abc.h::energy` and `cyQMBase._energies` **with the guards regenerated from the source on every run**
+    (`Generated/EnergyLoops.lean`: `if (term.v > u) break;`, `while … deref(it).v <= ui`) return the polynomial of the reported
+    coefficients, and agree with each other.  A change of either guard in the source changes the definitions this theorem is
+    about. -/
+theorem energy_loops_over_generated_guards (m : QMB R) (x : Nat → R)
+    (hlen : ∀ a, m.adj = some a → a.length = m.lin.length) :
+    m.energyGen x = polyEval m.off m.lin m.iterQuadratic x ∧ m.cyEnergyGen x = m.energyGen x := by
+  rw [QMB.energyGen_eq, QMB.cyEnergyGen_eq]
+  exact ⟨QMB.energy_eq_reported m x hlen, QMB.cyEnergy_eq_energy m x⟩
+
+/-- the header of the outer loop as extracted: `for (index_type u = 0; u < num_variables(); ++u)` -/
+theorem energy_loop_header_generated : cppFirst = 0 ∧ ∀ u n, cppInBounds u n = decide (u < n) := ⟨rfl, fun _ _ => rfl⟩
+
+/-- **`as_samples` of any iterator** (`iter(…)`, generator, `map` object) **or of a sequence containing a mapping**, with elements of
+    any form (dicts, labelled arrays with several rows, SampleSets, …) each of which delivers its own values: the result has the
+    first element's labels, all rows in order, and row `r` of element `i` carries under every label the value that element
+    assigns there — whatever order each element lists its labels in. -/
+theorem as_samples_iterator_any_elements (l : List (SL R)) (rows : List (List R)) (labels : List Label)
+    (hel : ∀ s ∈ l, ∀ rs ls, asSamples s = .ok (rs, ls) → Delivers s rs ls)
+    (h : asSamplesF (.iterOf l) = .ok (rows, labels)) :
+    rows.length = (l.map SL.numRows).sum ∧
+    (∀ s t, l = s :: t → ∃ rs, asSamples s = .ok (rs, labels)) ∧
+    ∀ i (hi : i < l.length) r, r < l[i].numRows → ∀ j v, labels[j]? = some v →
+      l[i].value r v = some ((rows.getD (rowOffset l i + r) []).getD j 0) :=
+  asSamplesIter_values l rows labels hel h
+
+/-- the hypothesis on the elements holds for dicts with distinct keys … -/
+theorem as_samples_element_dict_delivers (items : List (Label × R)) (hnd : (items.map (·.1)).Nodup) (rs : List (List R)) (ls : List Label)
+    (h : asSamples (.dict items) = .ok (rs, ls)) : Delivers (.dict items) rs ls :=
+  delivers_dict items hnd rs ls h
+
+/-- … and for SampleSets / labelled rectangular arrays with distinct labels -/
+theorem as_samples_element_sampleset_delivers (rows : List (List R)) (labels : List Label) (hnd : labels.Nodup)
+    (hrect : ∀ row ∈ rows, row.length = labels.length) (rs : List (List R)) (ls : List Label)
+    (h : asSamples (.sampleset rows labels) = .ok (rs, ls)) : Delivers (.sampleset rows labels) rs ls :=
+  delivers_sampleset rows labels hnd hrect rs ls h
+
+/-- … for `(array, labels)` tuples with several rows (non-empty, rectangular, distinct labels) … -/
+theorem as_samples_element_labelled_delivers (rows : List (List R)) (labels : List Label) (hnd : labels.Nodup)
+    (hne : rows.length * widthOf rows ≠ 0) (hrect : ∀ row ∈ rows, row.length = labels.length) (rs : List (List R)) (ls : List Label)
+    (h : asSamples (.labelled rows labels) = .ok (rs, ls)) : Delivers (.labelled rows labels) rs ls :=
+  delivers_labelled rows labels hnd hne hrect rs ls h
+
+/-- … and for an element that is itself a list of dicts (a sequence containing mappings, nested once) -/
+theorem as_samples_element_dicts_delivers (l : List (List (Label × R))) (hnd : ∀ d ∈ l, (d.map (·.1)).Nodup) (rs : List (List R))
+    (ls : List Label) (h : asSamples (.dicts l) = .ok (rs, ls)) : Delivers (.dicts l) rs ls :=
+  delivers_dicts l hnd rs ls h
+
+/-- a later element with another label SET is rejected (`ValueError`), wherever it stands -/
+theorem as_samples_iterator_mismatch_rejected (F : List Label) (s : SL R) (t : List (SL R)) (rs : List (List R)) (ls : List Label)
+    (hs : asSamples s = .ok (rs, ls)) (hne : ls ≠ F) (hset : sameSet ls F = false) :
+    stackRest F (s :: t) = .error .value :=
+  stackRest_mismatch F s t rs ls hs hne hset
+
+/-- **one-shot iterables**: a successful `as_samples(it)` consumes the iterator object; asked again, the same object yields zero
+    samples (the harness replays this on the real `as_samples`) -/
+theorem as_samples_iterator_one_shot (it : List (SL R)) (res : List (List R) × List Label)
+    (h : (asSamplesIterState it).1 = .ok res) :
+    (asSamplesIterState it).2 = [] ∧ asSamplesIter (asSamplesIterState it).2 = .ok ([], []) :=
+  asSamplesIter_one_shot it res h
+
+/-- the deprecated **`(Mapping, labels)`** form -/
+theorem as_samples_mapping_labels (items : List (Label × R)) (labels : List Label) (hnd : labels.Nodup) :
+    (∀ rows labels', asSamplesF (.mappingLabels items labels) = .ok (rows, labels') →
+      labels' = labels ∧ rows.length = 1 ∧
+      ∀ j v, labels[j]? = some v → lookupLabel items v = some ((rows.getD 0 []).getD j 0)) ∧
+    ((∃ v ∈ labels, lookupLabel items v = none) → asSamplesF (.mappingLabels items labels) = .error .value) :=
+  asSamplesMappingLabels_values items labels hnd
+
+/-- `(iterator, labels)` is a `TypeError`, a tuple of another length a `ValueError` -/
+theorem as_samples_tuple_errors (labels : List Label) :
+    asSamplesF (.tupleOfIterator labels : SLF R) = .error .type ∧ asSamplesF (.tupleNot2 : SLF R) = .error .value := ⟨rfl, rfl⟩
+
+/-- **samples given without a dtype** (dict, list of dicts, nested list, `(list, labels)`): `_sample_array` picks the first type of
+    the regenerated candidate list that passes the regenerated fit test, and the cast to it **changes no entry** — for every
+    integer array, in particular when the largest magnitude is exactly `2^7`, `2^15`, `2^31` -/
+theorem sample_array_dtype_keeps_values (rows : List (List Int)) (w : Nat) (out : List (List Int))
+    (h : sampleArrayInt rows = .ok (w, out)) : out = rows ∧ w ∈ sampleWidths :=
+  sampleArrayInt_values rows w out h
+
+/-- a type is found exactly when the largest magnitude fits `int64`, or — where the source keeps an int64 array as it is (flag
+    regenerated from the `except StopIteration` branch; the fix of D-r7b1) — every entry is an int64, i.e. the extreme is `-2^63`;
+    otherwise `ValueError` -/
+theorem sample_array_dtype_ok_iff (rows : List (List Int)) :
+    (∃ r, sampleArrayInt rows = .ok r) ↔
+      (sampleMax rows ≤ 2 ^ 63 - 1 ∨ (sampleKeepsInt64 = true ∧ inInt64 rows = true)) :=
+  sampleArrayInt_ok_iff rows
+
+end Round7
+
+/-- a generator yielding a dict, then a two-row SampleSet whose columns are in the other order: three rows under the dict's labels -/
+example : asSamplesF (.iterOf [.dict [(C01Witness.a, (1 : Rat)), (C01Witness.b, 2)],
+                                .sampleset [[3, 4], [5, 6]] [C01Witness.b, C01Witness.a]])
+    = .ok ([[1, 2], [4, 3], [6, 5]], [C01Witness.a, C01Witness.b]) := by decide +kernel
+
+/-- the element hypothesis of `as_samples_iterator_any_elements` is met by a concrete mixed iterator (a dict, then a two-row SampleSet
+    with the columns in the other order): both elements deliver their own values -/
+example : ∀ s ∈ ([.dict [(C01Witness.a, (1 : Rat)), (C01Witness.b, 2)], .sampleset [[3, 4], [5, 6]] [C01Witness.b, C01Witness.a]] : List (SL Rat)),
+    ∀ rs ls, asSamples s = .ok (rs, ls) → Delivers s rs ls := by
+  intro s hs rs ls h
+  simp only [List.mem_cons, List.not_mem_nil, or_false] at hs
+  rcases hs with rfl | rfl
+  · exact delivers_dict _ (by decide) rs ls h
+  · exact delivers_sampleset _ _ (by decide) (by decide) rs ls h
+
+/-- +128 as the largest magnitude: `int16` is chosen and 128 stays 128; −128 with 127: `max_` is 128 as well -/
+example : sampleArrayInt [[128, -5]] = .ok (16, [[128, -5]]) ∧ sampleArrayInt [[-128, 127]] = .ok (16, [[-128, 127]]) ∧
+    sampleArrayInt [[127, -127]] = .ok (8, [[127, -127]]) ∧ sampleArrayInt [[2147483648]] = .ok (64, [[2147483648]]) := by decide +kernel
+
+/-- the rule of seeded change C01-8 (smallest type holding the NEGATED maximum) picks `int8` for 128, and the cast wraps it -/
+example : pickWidthNegated 128 = some 8 ∧ wrapTo 8 128 = -128 := by decide +kernel
 
 end C01
